@@ -4,6 +4,7 @@ from concurrent.futures import ThreadPoolExecutor
 from .. import core, pipe, itergen as IG
 from .c03 import report_compile_failures
 
+from ..core import COMMON_DIMENSIONS
 PROP = "C05"
 # depth of the exhaustive exploration per number of enabled variants
 SIZES = dict(quick=dict(depth=lambda n: 3 if n <= 4 else 2 if n <= 20 else 1, steps=150, mcN=5, mcH=2, W=4),
@@ -107,6 +108,8 @@ def run(tier, seed, rep):
                        "parent state, plus seeded random histories with 4 live handles, explicit clone/drop and skip/step_by/rev/take; after "
                        "every call: result, len(), size_hint(), clone().collect(); distinct = distinct (definition, profile, parent, call, "
                        "argument, resulting state)")
+    rep.cov["rule"] += ' + enums of 200 and 300 variants (depth-1 tree over all arguments + random history); far-beyond arguments usize::MAX, MAX-1, 2^8, 2^8+1, 2^16, 2^16+2, 2^32, 2^32+1, 2^63'
+    rep.cov["rule"] += COMMON_DIMENSIONS
     rep.cov["samples"] = [dict(def_=e["def"], prof=e["prof"], call=e["call"], arg=e["bigk"] or e["n"], res=e["res"], len=e["len"], rest=e["rest"]) for e in calls[5:200:40] if e["op"] == "it"]
     rep.assumptions += ["W-bit word model: arithmetic only adds and compares with COUNT, so W=4/5 stands for W=64 while 2*COUNT < 2^W",
                         "the Apalache run covers the abstract contract for symbolic N and arguments (2 proof obligations), the W-bit refinement is bounded",
